@@ -44,6 +44,23 @@ WatchCase(e) ==
     /\ CheckAll({"C16"}, <<"watcher-dead-after", e.id, op.kind, op.p>>, r.alive)
     /\ CheckAll({"C16"} \cup SeqToSet(e.m.also), <<"relevant-change-not-reported", e.id, op.kind, op.p>>, (op.check /\ rel /\ r.alive) => r.triggered)
     /\ CheckAll({"C16"} \cup SeqToSet(e.m.also), <<"irrelevant-change-reported", e.id, op.kind, op.p>>, (op.check /\ ~rel) => ~r.triggered)
+    \* conformance of each callback of the real watchers to Watcher.tla (r.cbs: what the watcher of one extension group reported
+    \* as relevant during this operation, the sentinel excluded):
+    \*   Callback(e): a reported path passes the filter of the reporting group
+    /\ \A j \in 1..Len(r.cbs) : \A p \in SeqToSet(r.cbs[j].paths) :
+          CheckAll({"C16", "C15"}, <<"callback-reports-a-path-its-own-filter-excludes", e.id, p, r.cbs[j].exts>>, Relevant(p, r.cbs[j].exts))
+    \*   NothingExtra: the reporting group exists and the path lies below one of that group's declared paths
+    /\ \A j \in 1..Len(r.cbs) : \A p \in SeqToSet(r.cbs[j].paths) :
+          CheckAll({"C16"}, <<"watcher-reports-outside-the-paths-of-its-group", e.id, p, r.cbs[j].exts>>,
+                   \E k \in 1..Len(e.m.resources) : /\ NormExts(e.m.resources[k].exts) = NormExts(r.cbs[j].exts)
+                                                      /\ \E d \in SeqToSet(e.m.resources[k].paths) : IsPrefix(d, p))
+    \*   GroupingFaithful: a change of one file is reported by the watcher of EVERY entry that makes it relevant
+    /\ IF op.kind \in {"create", "modify", "delete"} /\ op.check /\ r.alive
+       THEN \A k \in 1..Len(e.m.resources) :
+              CheckAll({"C16"} \cup SeqToSet(e.m.also), <<"relevant-change-not-reported-by-the-watcher-of-its-entry", e.id, op.kind, op.p, e.m.resources[k].exts>>,
+                       ((\E d \in SeqToSet(e.m.resources[k].paths) : IsPrefix(d, op.p)) /\ Relevant(op.p, e.m.resources[k].exts))
+                         => \E j \in 1..Len(r.cbs) : NormExts(r.cbs[j].exts) = NormExts(e.m.resources[k].exts) /\ op.p \in SeqToSet(r.cbs[j].paths))
+       ELSE TRUE
 
 Step(e) == CASE e.kindcase = "list" -> ListCase(e)
              [] e.kindcase = "clean" -> CleanCase(e)
